@@ -188,6 +188,8 @@ class Assign:
             path = orig_path[:pae.part_idx]
             dest = scope[glom](dest_target, path, scope)
 
+        # the last step's argument is evaluated like the arguments of the steps before it
+        arg = arg_val(target, arg, scope)
         # TODO: forward-detect immutable dest?
         _apply = lambda dest: _assign_op(
             dest=dest, op=op, arg=arg, val=val, path=path, scope=scope)
